@@ -2,6 +2,10 @@
 mod checks;
 mod decode;
 mod explore;
+mod ops;
+mod oracles;
+mod poolexplore;
+mod stdworlds;
 mod refmodel;
 mod report;
 mod world;
